@@ -142,7 +142,18 @@ Record impl : Type := mkImpl {
   i_class : Z;               (* as class_of; 7 = other error, 8 = panic, 9 = crash / stopped by the OS *)
   i_markers : list N;        (* markers in the css, in order *)
   i_imports : list string;   (* plain css imports in the css, in order *)
-  i_log : option (list string) }.   (* loader calls (in-memory modes) *)
+  i_log : option (N * N) }.   (* loader calls (in-memory modes): how many, and their fingerprint *)
+
+(* fingerprint of a call log (transport only: the logs are compared through it) *)
+Definition hmod : N := 2305843009213693951.
+Fixpoint hash_str (s : string) (h : N) : N :=
+  match s with
+  | EmptyString => ((h * 131) mod hmod)%N
+  | String c r => hash_str r ((h * 131 + N_of_ascii c + 1) mod hmod)%N
+  end.
+Definition hash_log (l : list string) : N := fold_left (fun h u => hash_str u h) l 7%N.
+Definition log_matches (calls_rev : list string) (l : N * N) : bool :=
+  N.eqb (N.of_nat (List.length calls_rev)) (fst l) && N.eqb (hash_log (rev calls_rev)) (snd l).
 
 (* 1 agree / 0 disagree *)
 Definition corr_res (r : res) (i : impl) : Z :=
@@ -151,8 +162,8 @@ Definition corr_res (r : res) (i : impl) : Z :=
        | RFuel => 1%Z
        | ROk s =>
            if ns_eqb (rev (out s)) (i_markers i) && strs_eqb (rev (imports s)) (i_imports i)
-              && match i_log i with Some l => strs_eqb (rev (calls s)) l | None => true end
+              && match i_log i with Some l => log_matches (calls s) l | None => true end
            then 1%Z else 0%Z
        | RErr _ s =>
-           match i_log i with Some l => if strs_eqb (rev (calls s)) l then 1%Z else 0%Z | None => 1%Z end
+           match i_log i with Some l => if log_matches (calls s) l then 1%Z else 0%Z | None => 1%Z end
        end.
